@@ -299,7 +299,10 @@ def run(ctx: Any, prog: Program) -> None:
         w = tw({'kvdef.type': member, 'kvdef.type is ValueTypes.SPAWNFLAGS': member is spawn, 'kvdef.type is ValueTypes.CHOICES': False, 'kvdef.readonly': False, 'tags': False, 'default': False})
         r = tw({'value_type': member, 'value_type is ValueTypes.SPAWNFLAGS': member is spawn})
         ws, rs = merge_slots(flat(w.block(db.func('kv_serialise').body))), merge_slots(flat(r.block(db.func('kv_unserialise').body)))
-        ctx.check('C16.Q1', ws == rs and '[' not in ws, db, db.func('kv_serialise'), f'keyvalue record ({label}): reader consumes `{rs}`, writer produces `{ws}`', func='kv_serialise', text=f'kv record {label}')
+        resolved_ = '[' not in ws and '[' not in rs
+        ctx.shape('C16.Q1', resolved_, db, db.func('kv_serialise'), f'keyvalue record ({label}): every branch is decided by the configuration (reader `{rs}`, writer `{ws}`)', func='kv_serialise', text=f'kv record {label}')
+        if resolved_:
+            ctx.check('C16.Q1', ws == rs, db, db.func('kv_serialise'), f'keyvalue record ({label}): reader consumes `{rs}`, writer produces `{ws}`', func='kv_serialise', text=f'kv record {label}')
     ws = merge_slots(flat(tw({}).block(db.func('iodef_serialise').body)))
     rs = merge_slots(flat(tw({}).block(db.func('iodef_unserialise').body)))
     ctx.check('C16.Q1', ws == rs, db, db.func('iodef_serialise'), f'I/O record: reader `{rs}`, writer `{ws}`', func='iodef_serialise', text='io record')
@@ -319,10 +322,21 @@ def run(ctx: Any, prog: Program) -> None:
     if len(wres) != 1 or len(rres) != 1:
         raise AnalysisError('resource loops not found in ent_serialise / ent_unserialise')
     sub = {'BinStrDict.write_tags': 'TAGS', 'BinStrDict.read_tags': 'TAGS'}
+    # the branch that carries the tag list, on either side: the `if` whose body calls write_tags / read_tags (its test is the configuration key)
+    def tag_test(loop: ast.AST, meth: str) -> Optional[str]:
+        ifs_ = [n for n in ast.walk(loop) if isinstance(n, ast.If) and any(isinstance(c, ast.Call) and (dotted(c.func) or '').endswith('.' + meth) for st in n.body for c in ast.walk(st))]
+        return ast.unparse(ifs_[0].test) if len(ifs_) == 1 else None
+    w_key, r_key = tag_test(wres[0], 'write_tags'), tag_test(rres[0], 'read_tags')
+    ctx.shape('C16.Q1', w_key is not None and r_key is not None, db, wres[0], 'one tag-list branch in the resource loop of ent_serialise and of ent_unserialise', func='ent_serialise', text='resource record tag branch')
     for tagged in (True, False):
-        ws = merge_slots(flat(tw({'res.tags': tagged}, sub=sub).block(wres[0].body)))
-        rs = merge_slots(flat(tw({'file_ind & 128': tagged}, sub=sub).block(rres[0].body)))
-        ctx.check('C16.Q1', ws == rs and '[' not in ws, db, wres[0], f'resource record ({"tagged" if tagged else "untagged"}): reader `{rs}`, writer `{ws}`', func='ent_serialise', text=f'resource record tagged={tagged}')
+        if w_key is None or r_key is None:
+            break
+        ws = merge_slots(flat(tw({w_key: tagged}, sub=sub).block(wres[0].body)))
+        rs = merge_slots(flat(tw({r_key: tagged}, sub=sub).block(rres[0].body)))
+        resolved_ = '[' not in ws and '[' not in rs
+        ctx.shape('C16.Q1', resolved_, db, wres[0], f'resource record ({"tagged" if tagged else "untagged"}): every branch is decided by the configuration (reader `{rs}`, writer `{ws}`)', func='ent_serialise', text=f'resource record tagged={tagged}')
+        if resolved_:
+            ctx.check('C16.Q1', ws == rs, db, wres[0], f'resource record ({"tagged" if tagged else "untagged"}): reader `{rs}`, writer `{ws}`', func='ent_serialise', text=f'resource record tagged={tagged}')
     # entity header linkage
     hw = [c for c in walk_no_nested(es) if isinstance(c, ast.Call) and dotted(c.func) == '_fmt_ent_header.pack']
     hr = [n for n in walk_no_nested(eu) if isinstance(n, ast.Assign) and isinstance(n.value, ast.Call) and dotted(n.value.func) == '_fmt_ent_header.unpack']
